@@ -1,119 +1,23 @@
-(* C02 -- the statements of the wrappers (_Algorithm/_Algorithm2D.__init__, _register, _return_results, _override_x,
-   _get_function) and of the methods that skip the wrapper's sorting (optimizers) + custom_bc that mention the
-   sort orders, PINNED as reviewed text (target, expression) in source order.  tools/gen_orderflow.py re-extracts
-   the same list from the current source on every run (gen_sites); props/C02.v requires equality.  The order
-   discipline of these sites is argued in the comments below and cross-validated dynamically by harness/c02.py
-   (arrays that encode their own index) -- it is NOT derived by the abstract interpretation that covers the other
-   methods.
+(* C02 -- what is still PINNED as reviewed text (target, expression), in source order: the statements of custom_bc
+   that mention a sort order (a local argsort of the sampled x_fit only; custom_bc is registered WITH the wrapper's
+   sorting, runs its sub-fitter on the ascending x_fit and interpolates back onto the sorted x).
+   tools/gen_orderflow.py re-extracts the same list from the current source on every run (gen_sites);
+   props/C02.v requires equality.
 
-   Reviewed meaning (tags as in C02/OrderFlow.v):
-   * __init__: x is sorted once; 2-D: the four layouts None / x_order / (..., z_order) / (x_order[:,None], z_order[None,:]).
-   * _register: data sorted with _sort_order unless skip_sorting;  _return_results: every sort_keys entry and
-     (unless skip_sorting) the baseline gathered with _inverted_order.          [C02_wrapper_equivariant]
-   * _get_function / individual_axes: sub-fitters get x (z) back in the SUPPLIED order (self.x[inverted]) so that
-     they sort the unsorted data themselves.
-   * optimize_extended_range: edges are computed from the sorted data; the sub-fitter's order is the extended
-     order [C02_extended_order]; user weights are padded in the supplied order.
-   * adaptive_minmax: weights tag -1 --sort--> 0, edge write at tag 0, --unsort--> -1 for the sub-fitter calls;
-     default weights (order-invariant) take the same path since the fix 0b7a534 (sort_weights no longer depends
-     on weights being given).
-   * custom_bc: local argsort of the sampled x_fit only. *)
+   Everything else that used to be pinned here is now DERIVED: __init__/_register/_return_results are the
+   wrapper / wrapper2 models (C02_wrapper_equivariant, C02_wrapper2_equivariant); _get_function is
+   get_function_x / axis_values (C02_get_function, C02_individual_axes); _override_x + optimize_extended_range,
+   adaptive_minmax (1-D, 2-D) and individual_axes are modelled in C02/OptModel.v and proved equivariant
+   (C02_extended_range, C02_override_x_inverse, C02_adaptive_minmax, C02_adaptive_minmax_2d, C02_individual_axes).
+   Each model is tied to the code by an exact-integer correspondence in harness/c02.py.  The translator refuses a
+   skip_sorting method that is not in its list of modelled ones.  collab_pls has no order-related statement at all
+   (it passes per-point arrays between sub-fitters in the supplied order) and is covered by the oracle only. *)
 From Coq Require Import List String.
 Import ListNotations.
 Open Scope string_scope.
 
 Definition expected_sites : list (string * string * string * string) := [
-  ("1d", "__init__", "self._sort_order", "None");
-  ("1d", "__init__", "self._inverted_order", "None");
-  ("1d", "__init__", "(self._sort_order, self._inverted_order)", "_determine_sorts(self.x)");
-  ("1d", "__init__", "<if>", "self._sort_order is not None");
-  ("1d", "__init__", "self.x", "self.x[self._sort_order]");
-  ("1d", "_register", "<return>", "return partial(cls._register, sort_keys=sort_keys, ensure_1d=ensure_1d, skip_sorting=skip_sorting, require_unique_x=require_unique_x)");
-  ("1d", "_register", "<if>", "input_y and (not skip_sorting)");
-  ("1d", "_register", "y", "_sort_array(y, sort_order=self._sort_order)");
-  ("1d", "_register", "<return>", "return self._return_results(baseline, params, output_dtype, sort_keys, skip_sorting)");
-  ("1d", "_return_results", "<if>", "self._sort_order is not None");
-  ("1d", "_return_results", "<loop>", "sort_keys");
-  ("1d", "_return_results", "params[key]", "params[key][self._inverted_order]");
-  ("1d", "_return_results", "<if>", "not skip_sorting");
-  ("1d", "_return_results", "baseline", "_sort_array(baseline, sort_order=self._inverted_order)");
-  ("1d", "_override_x", "new_object._sort_order", "new_sort_order");
-  ("1d", "_override_x", "<if>", "new_sort_order is not None");
-  ("1d", "_override_x", "new_object._inverted_order", "_inverted_sort(new_sort_order)");
-  ("1d", "_get_function", "<if>", "self._sort_order is not None");
-  ("1d", "_get_function", "x", "self.x[self._inverted_order]");
-  ("1d", "_get_function", "<else>", "");
-  ("2d", "__init__", "x_sort_order", "None");
-  ("2d", "__init__", "z_sort_order", "None");
-  ("2d", "__init__", "(x_sort_order, x_inverted_order)", "_determine_sorts(self.x)");
-  ("2d", "__init__", "<if>", "x_sort_order is not None");
-  ("2d", "__init__", "self.x", "self.x[x_sort_order]");
-  ("2d", "__init__", "(z_sort_order, z_inverted_order)", "_determine_sorts(self.z)");
-  ("2d", "__init__", "<if>", "z_sort_order is not None");
-  ("2d", "__init__", "self.z", "self.z[z_sort_order]");
-  ("2d", "__init__", "<if>", "x_sort_order is None and z_sort_order is None");
-  ("2d", "__init__", "self._sort_order", "None");
-  ("2d", "__init__", "self._inverted_order", "None");
-  ("2d", "__init__", "<else>", "");
-  ("2d", "__init__", "<if>", "z_sort_order is None");
-  ("2d", "__init__", "self._sort_order", "x_sort_order");
-  ("2d", "__init__", "self._inverted_order", "x_inverted_order");
-  ("2d", "__init__", "<else>", "");
-  ("2d", "__init__", "<if>", "x_sort_order is None");
-  ("2d", "__init__", "self._sort_order", "(..., z_sort_order)");
-  ("2d", "__init__", "self._inverted_order", "(..., z_inverted_order)");
-  ("2d", "__init__", "<else>", "");
-  ("2d", "__init__", "self._sort_order", "(x_sort_order[:, None], z_sort_order[None, :])");
-  ("2d", "__init__", "self._inverted_order", "(x_inverted_order[:, None], z_inverted_order[None, :])");
-  ("2d", "_register", "<return>", "return partial(cls._register, sort_keys=sort_keys, ensure_2d=ensure_2d, reshape_baseline=reshape_baseline, reshape_keys=reshape_keys, skip_sorting=skip_sorting, require_unique_xz=require_unique_xz)");
-  ("2d", "_register", "<if>", "not skip_sorting");
-  ("2d", "_register", "y", "_sort_array2d(y, sort_order=self._sort_order)");
-  ("2d", "_register", "<return>", "return self._return_results(baseline, params, dtype=output_dtype, sort_keys=sort_keys, ensure_2d=ensure_2d, reshape_baseline=reshape_baseline, reshape_keys=reshape_keys, skip_sorting=skip_sorting)");
-  ("2d", "_return_results", "<if>", "self._sort_order is not None");
-  ("2d", "_return_results", "<loop>", "sort_keys");
-  ("2d", "_return_results", "params[key]", "params[key][self._inverted_order]");
-  ("2d", "_return_results", "<if>", "not skip_sorting");
-  ("2d", "_return_results", "baseline", "_sort_array2d(baseline, sort_order=self._inverted_order)");
-  ("2d", "_get_function", "<if>", "self._sort_order is None");
-  ("2d", "_get_function", "<else>", "");
-  ("2d", "_get_function", "<if>", "isinstance(self._sort_order, tuple)");
-  ("2d", "_get_function", "<if>", "self._sort_order[0] is Ellipsis");
-  ("2d", "_get_function", "z", "self.z[self._inverted_order[1]]");
-  ("2d", "_get_function", "<else>", "");
-  ("2d", "_get_function", "x", "self.x[self._inverted_order[0][:, 0]]");
-  ("2d", "_get_function", "z", "self.z[self._inverted_order[1][0]]");
-  ("2d", "_get_function", "<else>", "");
-  ("2d", "_get_function", "x", "self.x[self._inverted_order]");
-  ("1d", "optimize_extended_range", "(added_left, added_right)", "_get_edges(_sort_array(y, self._sort_order), added_window, **pad_kwargs)");
-  ("1d", "optimize_extended_range", "<if>", "self._sort_order is None");
-  ("1d", "optimize_extended_range", "new_sort_order", "None");
-  ("1d", "optimize_extended_range", "<else>", "");
-  ("1d", "optimize_extended_range", "new_sort_order", "np.concatenate((self._sort_order, np.arange(self._size, self._size + added_len, dtype=np.intp)), dtype=np.intp)");
-  ("1d", "optimize_extended_range", "new_sort_order", "np.concatenate((np.arange(added_len, dtype=np.intp), self._sort_order + added_len), dtype=np.intp)");
-  ("1d", "optimize_extended_range", "new_sort_order", "np.concatenate((np.arange(added_window, dtype=np.intp), self._sort_order + added_window, np.arange(self._size + added_window, self._size + added_len, dtype=np.intp)), dtype=np.intp)");
-  ("1d", "optimize_extended_range", "new_fitter", "fit_object._override_x(fit_x_data, new_sort_order=new_sort_order)");
-  ("1d", "adaptive_minmax", "sort_weights", "self._sort_order is not None");
-  ("1d", "adaptive_minmax", "<if>", "sort_weights");
-  ("1d", "adaptive_minmax", "weight_array", "_sort_array(weight_array, self._sort_order)");
-  ("1d", "adaptive_minmax", "<if>", "sort_weights");
-  ("1d", "adaptive_minmax", "weight_array", "_sort_array(weight_array, self._inverted_order)");
-  ("1d", "adaptive_minmax", "constrained_weights", "_sort_array(constrained_weights, self._inverted_order)");
   ("1d", "custom_bc", "sort_order", "np.argsort(x_fit, kind='mergesort')");
   ("1d", "custom_bc", "x_fit", "x_fit[sort_order]");
-  ("1d", "custom_bc", "y_fit", "np.array(y_sections)[sort_order]");
-  ("2d", "adaptive_minmax", "sort_weights", "self._sort_order is not None");
-  ("2d", "adaptive_minmax", "<if>", "sort_weights");
-  ("2d", "adaptive_minmax", "weight_array", "_sort_array2d(weight_array, self._sort_order)");
-  ("2d", "adaptive_minmax", "<if>", "sort_weights");
-  ("2d", "adaptive_minmax", "weight_array", "_sort_array2d(weight_array, self._inverted_order)");
-  ("2d", "adaptive_minmax", "constrained_weights", "_sort_array2d(constrained_weights, self._inverted_order)");
-  ("2d", "individual_axes", "<if>", "self._sort_order is None");
-  ("2d", "individual_axes", "<else>", "");
-  ("2d", "individual_axes", "<if>", "isinstance(self._sort_order, tuple)");
-  ("2d", "individual_axes", "<if>", "self._sort_order[0] is Ellipsis");
-  ("2d", "individual_axes", "axis_values", "(self.x, self.z[self._inverted_order[1]])");
-  ("2d", "individual_axes", "<else>", "");
-  ("2d", "individual_axes", "axis_values", "(self.x[self._inverted_order[0][:, 0]], self.z[self._inverted_order[1][0]])");
-  ("2d", "individual_axes", "<else>", "");
-  ("2d", "individual_axes", "axis_values", "(self.x[self._inverted_order], self.z)")
+  ("1d", "custom_bc", "y_fit", "np.array(y_sections)[sort_order]")
 ].
